@@ -1534,6 +1534,10 @@ class HttpHeaderFieldValueXXSSProtectionMode(FieldValueComponentStringEnum):
         return 'mode'
 
     @classmethod
+    def _check_name(cls, name):
+        cls._check_name_insensitive(name)
+
+    @classmethod
     def _get_value_type(cls):
         return HttpHeaderXXSSProtectionMode
 
